@@ -20,6 +20,7 @@ import (
 	"go/token"
 	"go/types"
 	"os"
+	"sort"
 
 	"golang.org/x/tools/go/cfg"
 )
@@ -352,6 +353,8 @@ type guardAnalysis struct {
 	holds    []uint64 // assignments (over vars) in which the guard holds
 	universe []uint64
 	fties    []ftie
+	aux      map[int]int // condition atom -> auxiliary variable bit (atoms that share a condition with a leaf)
+	nAux     int
 }
 
 func b2i(b bool) int {
@@ -398,7 +401,65 @@ func (g *Graph) newGuardAnalysis(gd Guard, withFlags bool) *guardAnalysis {
 		}
 	}
 	ga.nFlag = len(ga.ca.flags)
-	ga.nVar = ga.nLeaf + ga.nFlag
+	ga.aux = map[int]int{}
+	// register the atoms of every condition first (relations between atoms of different conditions)
+	if withFlags {
+		for _, b := range g.Blocks {
+			if len(b.Succs) == 2 {
+				if c := g.edgeCond(b, 0); c != nil {
+					ga.ca.form(c.E, 0)
+				}
+			}
+		}
+	}
+	if withFlags {
+		// atoms that occur in a condition together with an atom a leaf recognises (or with a flag) are
+		// tracked too: `case a && x: ...; case a:` tells !x in the second case only if a is remembered
+		room := 11 - ga.nLeaf - ga.nFlag
+		if room > 4 {
+			room = 4
+		}
+		for _, b := range g.Blocks {
+			if len(b.Succs) != 2 || room <= 0 {
+				continue
+			}
+			c := g.edgeCond(b, 0)
+			if c == nil {
+				continue
+			}
+			cf := ga.ca.form(c.E, 0)
+			used := map[int]bool{}
+			cf.atomsUsed(used)
+			if len(used) < 2 {
+				continue
+			}
+			relevant := false
+			for j := range used {
+				if len(ga.tiesFor(j)) > 0 {
+					relevant = true
+				}
+			}
+			if !relevant {
+				continue
+			}
+			var js []int
+			for j := range used {
+				js = append(js, j)
+			}
+			sort.Ints(js)
+			for _, j := range js {
+				if len(ga.tiesFor(j)) > 0 {
+					continue
+				}
+				if _, ok := ga.aux[j]; !ok && room > 0 {
+					ga.aux[j] = ga.nLeaf + ga.nFlag + ga.nAux
+					ga.nAux++
+					room--
+				}
+			}
+		}
+	}
+	ga.nVar = ga.nLeaf + ga.nFlag + ga.nAux
 	ga.words = (1<<uint(ga.nVar) + 63) / 64
 	// the assignments in which the guard holds
 	ga.holds = make([]uint64, ga.words)
@@ -445,11 +506,56 @@ func (ga *guardAnalysis) tiesFor(j int) []tie {
 		default:
 			if t, ok := ga.numericTie(i, j, e); ok {
 				out = append(out, t)
+			} else if t, ok := ga.exclusiveTie(i, j, e); ok {
+				out = append(out, t)
 			}
 		}
 	}
 	ga.ties[j] = out
 	return out
+}
+
+// exclusiveTie: the atom `X == c1` and a leaf that recognises `X == c2` for a
+// different constant c2 (seen in another condition of the function) cannot both
+// be true: the arms of `switch x { case A: case B: }` exclude one another.
+func (ga *guardAnalysis) exclusiveTie(i, j int, e ast.Expr) (tie, bool) {
+	f := ga.g.Fn
+	x1, c1, ok := eqConst(f, e)
+	if !ok {
+		return tie{}, false
+	}
+	l := ga.c.leaves[i]
+	for k, other := range ga.ca.exprs {
+		if k == j {
+			continue
+		}
+		x2, c2, ok := eqConst(f, other)
+		if !ok || constant.Compare(c1, token.EQL, c2) || !f.SameValue(x1, x2) {
+			continue
+		}
+		switch {
+		case l(Fact{other, true}): // leaf == (X == c2): not both true
+			return tie{i, j, [2][2]bool{{true, true}, {true, false}}}, true
+		case l(Fact{other, false}): // leaf == (X != c2): atom true forces leaf true
+			return tie{i, j, [2][2]bool{{true, true}, {false, true}}}, true
+		}
+	}
+	return tie{}, false
+}
+
+// eqConst views e as `X == constant`.
+func eqConst(f *Fn, e ast.Expr) (ast.Expr, constant.Value, bool) {
+	be, ok := ast.Unparen(e).(*ast.BinaryExpr)
+	if !ok || be.Op != token.EQL {
+		return nil, nil, false
+	}
+	if c := f.ConstVal(be.Y); c != nil && f.ConstVal(be.X) == nil {
+		return be.X, c, true
+	}
+	if c := f.ConstVal(be.X); c != nil && f.ConstVal(be.Y) == nil {
+		return be.Y, c, true
+	}
+	return nil, nil, false
 }
 
 // numericTie relates an integer comparison `X op c` of the code to a leaf that
@@ -609,13 +715,25 @@ func (ga *guardAnalysis) allowedBy(cf *cform, v bool) []uint64 {
 	out := make([]uint64, ga.words)
 	avals := make([]bool, len(ga.ca.exprs))
 	fvals := make([]bool, ga.nFlag)
+	// atoms tracked as auxiliary variables take their value from the assignment; the others are quantified
+	var free []int
+	for _, j := range atoms {
+		if _, isAux := ga.aux[j]; !isAux {
+			free = append(free, j)
+		}
+	}
 	for a := 0; a < 1<<uint(ga.nVar); a++ {
 		for k := 0; k < ga.nFlag; k++ {
 			fvals[k] = a&(1<<uint(ga.nLeaf+k)) != 0
 		}
+		for _, j := range atoms {
+			if bit, isAux := ga.aux[j]; isAux {
+				avals[j] = a&(1<<uint(bit)) != 0
+			}
+		}
 		ok := false
-		for m := 0; m < 1<<uint(len(atoms)) && !ok; m++ {
-			for idx, j := range atoms {
+		for m := 0; m < 1<<uint(len(free)) && !ok; m++ {
+			for idx, j := range free {
 				avals[j] = m&(1<<uint(idx)) != 0
 			}
 			if cf.eval(avals, fvals) != v {
